@@ -356,15 +356,15 @@ theorem Conn.getPacketsToSend_char {c : Conn} (h : c.SendInv) (hw : Acks.WF c.pe
   · unfold Conn.getPacketsToSend
     rw [hd]
     simp only [Bool.false_eq_true, if_false, e, Res.bind_ok]
-    by_cases hne : c.pendingAcks.isEmpty = true
-    · simp only [hne, if_true] at hsent ⊢
-      rw [hsent]
-      simp only [Res.bind_ok]
-      cases Conn.serialiseAll pk0 <;> rfl
-    · simp only [hne, if_false] at hsent ⊢
+    cases hE : c.pendingAcks.isEmpty
+    · simp only [hE, Bool.false_eq_true, if_false] at hsent ⊢
       rw [hsent]
       simp only [Res.bind_ok]
       cases Conn.serialiseAll (pk0 ++ [Packet.ack seq0 c.pendingAcks]) <;> rfl
+    · simp only [hE, if_true] at hsent ⊢
+      rw [hsent]
+      simp only [Res.bind_ok]
+      cases Conn.serialiseAll pk0 <;> rfl
   · refine ⟨r1, s1, ?_, ?_⟩
     · intro x hx
       dsimp only
